@@ -121,9 +121,9 @@ func (l *lexer) acceptRun(valid string) {
 func (l *lexer) acceptWord(word string) bool {
 	pos, loc, prev := l.end, l.loc, l.prev
 
-	// Skip spaces (U+0020) if any
+	// Skip white space if any
 	r := l.peek()
-	for ; r == ' '; r = l.peek() {
+	for ; IsSpace(r); r = l.peek() {
 		l.next()
 	}
 
@@ -133,7 +133,8 @@ func (l *lexer) acceptWord(word string) bool {
 			return false
 		}
 	}
-	if r = l.peek(); r != ' ' && r != eof {
+	// The word must end here: "not inside" is `not` followed by an identifier.
+	if r = l.peek(); IsAlphaNumeric(r) {
 		l.end, l.loc, l.prev = pos, loc, prev
 		return false
 	}
